@@ -82,19 +82,25 @@ def ring_weight(kk, ss, N, t):
 
 @contract('pyPRISM/omega/GaussianRing.py::GaussianRing.calculate', props=['C11'])
 def GaussianRing_calculate(self, k):
+    # defining sum over the N separations t = 0..N-1 of one row of the ring's pair matrix (all rows are equal by the
+    # symmetry w_t = w_{N-t}, lemma omega-sum-rules); an uninterpreted finite sum for symbolic N
     N = self.length
     ss = self.sigma * self.sigma
-    self.value = pointwise(k.shape, lambda m: sum([ring_weight(k[m] * k[m], ss, N, t) for t in range(N)]))
+    self.value = array_sum(0, N, lambda t: pointwise(k.shape, lambda m: ring_weight(k[m] * k[m], ss, N, t)))
     return self.value
 
 
 @cases(GaussianRing_calculate)
 def _ring_cases():
+    def build_sym(f):
+        self = f.construct(O + 'GaussianRing:GaussianRing', sigma=f.real('sigma', pos=True), length=f.int('N', lo=1))
+        return dict(self=self, k=f.array('k', (f.int('n', lo=0),)))
+    yield 'any N >= 1 (accumulation loop summarised as a finite sum: unbounded in N)', build_sym, {'history': {'method': 'calculate', 'mutable': ('sigma', 'length'), 'other': True}}
     for N in (1, 2, 3, 4, 5, 8):
         def build(f, N=N):
             self = f.construct(O + 'GaussianRing:GaussianRing', sigma=f.real('sigma', pos=True), length=N)
             return dict(self=self, k=f.array('k', (f.int('n', lo=0),)))
-        yield 'N=%d (loop unrolled: bounded in N)' % N, build
+        yield 'N=%d (loop unrolled)' % N, build
 
 
 # --------------------------------------------------------------------------- DiscreteKoyama
@@ -161,19 +167,25 @@ def _kf_cases():
 
 @contract('pyPRISM/omega/DiscreteKoyama.py::DiscreteKoyama.calculate', props=['C11'])
 def DiscreteKoyama_calculate(self, k):
+    # the defining pair sum over the N sites, (1/N) sum_{i,j} w_|i-j|(k): N self terms (w_0 = 1) plus twice the pairs i < j
     N = self.length
-    # defining pair sum over the N sites: each separation n occurs N-n times (twice, i<j and j<i), plus the N self terms
-    w = [None] + [self.koyama_kernel_fourier(k=k, n=n) for n in range(1, N)]
-    self.value = pointwise(k.shape, lambda m: 1.0 + (2.0 / N) * sum([(N - n) * w[n][m] for n in range(1, N)]))
+    S = array_sum(1, N, lambda i: array_sum(i + 1, N + 1, lambda j: self.koyama_kernel_fourier(k=k, n=j - i)))
+    self.value = pointwise(k.shape, lambda m: 1.0 + (2.0 / N) * S[m])
     return self.value
 
 
 @cases(DiscreteKoyama_calculate)
 def _dk_cases():
+    def build_sym(f):
+        N = f.int('N', lo=2)
+        o = _mk_koyama(f, 5)
+        f.setattr(o, 'length', N)
+        return dict(self=o, k=f.array('k', (f.int('n', lo=0),), pos=True))
+    yield 'any N >= 2 (nested accumulation loops summarised as finite sums: unbounded in N)', build_sym
     for N in (2, 3, 4, 5, 6):
         def build(f, N=N):
             return dict(self=_mk_koyama(f, N), k=f.array('k', (f.int('n', lo=0),), pos=True))
-        yield 'N=%d (loops unrolled: bounded in N)' % N, build, ({'history': {'method': 'calculate', 'other': True}} if N == 3 else {})
+        yield 'N=%d (loops unrolled)' % N, build, ({'history': {'method': 'calculate', 'other': True}} if N == 3 else {})
 
 
 @contract('pyPRISM/omega/DiscreteKoyama.py::DiscreteKoyama.__init__', props=['C11'])
